@@ -11,15 +11,27 @@ REPO_SOURCES = ["muggle/c/time/flow_controller.c", "muggle/c/time/fast_flow_cont
                 "muggle/c/time/time_counter.c"]
 LINK_FLAGS = ["-Wl,--wrap=clock_gettime"]
 HEADER_LINES = 1
+# big-ring cases: the extracted model walks a list per operation (about n steps), one lapped case with n = 3000 takes
+# several seconds there, and a search case with n = 65537 has over a million lines; the limits only bound how long a
+# silent driver is waited for
+CASE_TIMEOUT = 30.0
+MODEL_CASE_TIMEOUT = 120.0
 RULE = ("exhaustive timelines (gaps from {0,1,t/2,t-1,t,t+1,2t}) for n in 1..4 through check_and_update and "
-        "check_and_force_update on the ns and tick controllers, plus seeded random long mixed-op timelines and "
-        "rejected inits; a case is non-trivial when it contains both an admitted and a refused request; distinct = "
+        "check_and_force_update on the ns and tick controllers, plus seeded random long mixed-op timelines, "
+        "big rings (n = 1023, 1024, 1025, 3000 and every integer literal of the controllers' C text +-1) lapped at "
+        "least twice by uneven traffic (irregular window at the limit, bursty overload, idle gaps of about t, bursts "
+        "of n+1) through the plain, forced-update, mixed-op and tick variants, tick windows of 4..60 s at 2..3.5 GHz, "
+        "and rejected inits; a case is non-trivial when it contains both an admitted and a refused request; distinct = "
         "distinct script text")
 TRUSTED_BASE = [
     "leaf translator lib/leaftrans.py (clang 14 JSON AST -> Gallina over Z, unsigned wrap explicit) for muggle_flow_ctl_check/_update and the fast variants: obligations gen_*_matches_model tie the C text of these four functions to the model directly",
-    "modelled, not verified: the monotonic clock (clock_gettime is wrapped to a scenario clock; muggle_rdtscp is supplied by the driver); int64 overflow is excluded by the stated magnitude bound",
+    "call-level translator lib/leafcalls.py (same AST; callees of the library inlined statement by statement, nested struct members, clock_gettime / muggle_rdtscp as oracles consuming a list of clock readings, fixed signature = the modelled struct fields, range-check lists for signed arithmetic) for muggle_time_counter_start/_end/_interval_ns, muggle_flow_ctl_get_curr_elapsed/_check_and_update/_check_and_force_update and the fast equivalents: obligations gen_time_counter_matches_model, gen_ns_calls_match_model, gen_fast_calls_match_model, gen_*_no_signed_overflow",
+    "modelled, not verified: the clock (clock_gettime is wrapped to a scenario clock that advances by a case-chosen step at EVERY read, with a case-chosen base including the nanosecond part; monotonic clock ids deliver it, any other id runs backwards; muggle_rdtscp is supplied by the driver the same way); (int64_t)tick_freq of the double parameter is taken as truncation of the decimal text by the OCaml driver",
+    "muggle_flow_ctl_init / muggle_fast_flow_ctl_init (malloc, memset, fill loop) are tied by the differential run and the monitor only (rings up to n = 4100 against the extracted model, n = 65539 against the monitor); int64 overflow outside the stated magnitude bound is not modelled",
 ]
-ASSUMPTIONS = ["non-decreasing request timeline (the property's quantifier); |now|, t*unit < 2^62"]
+ASSUMPTIONS = ["non-decreasing request timeline (the property's quantifier); |now|, t * unit, init_forward * unit < 2^62, and "
+               "t * 10^9 < 2^62 for the tick controller too (muggle_fast_flow_ctl_init also stores the nanosecond window); "
+               "0 <= tick_freq < 2^63 (the double is truncated by (int64_t)tick_freq); clock readings (base + now) < 2^63"]
 
 NS = 1000000000
 
@@ -29,31 +41,89 @@ LEAVES = [("muggle/c/time/flow_controller.c", "muggle_flow_ctl_check"),
           ("muggle/c/time/fast_flow_controller.c", "muggle_fast_flow_ctl_update")]
 
 
+TC = "muggle/c/time/time_counter.c"
+FC = "muggle/c/time/flow_controller.c"
+FFC = "muggle/c/time/fast_flow_controller.c"
+# the modelled state, in the fixed order of arguments and results of the call-level generated terms
+TS4 = ["start_ts_tv_sec", "start_ts_tv_nsec", "end_ts_tv_sec", "end_ts_tv_nsec"]
+SIG_TC = [("f_" + x, False) for x in TS4]
+SIG_NS = [("f_arr", True), ("f_cursor", False), ("f_n", False), ("f_t", False)] + [("f_tc_" + x, False) for x in TS4]
+SIG_FAST = [("f_arr", True), ("f_cursor", False), ("f_n", False), ("f_t_ticks", False), ("f_start_ticks", False)]
+# (sources searched for bodies, function, signature, name of the generated term)
+CALLS = [
+    ([TC], "muggle_time_counter_start", SIG_TC, None),
+    ([TC], "muggle_time_counter_end", SIG_TC, None),
+    ([TC], "muggle_time_counter_interval_ns", SIG_TC, None),
+    ([FC, TC], "muggle_flow_ctl_get_curr_elapsed", SIG_NS, None),
+    ([FC, TC], "muggle_flow_ctl_check_and_update", SIG_NS, None),
+    ([FC, TC], "muggle_flow_ctl_check_and_force_update", SIG_NS, None),
+    ([FFC], "muggle_fast_flow_ctl_get_curr_elapsed", SIG_FAST, None),
+    ([FFC], "muggle_fast_flow_ctl_check_and_update", SIG_FAST, None),
+    ([FFC], "muggle_fast_flow_ctl_check_and_force_update", SIG_FAST, None),
+    # the four leaves once more in the fixed-signature form, for their range-check lists (genc_*_chk)
+    ([FC], "muggle_flow_ctl_check", SIG_NS, "genc_muggle_flow_ctl_check"),
+    ([FC], "muggle_flow_ctl_update", SIG_NS, "genc_muggle_flow_ctl_update"),
+    ([FFC], "muggle_fast_flow_ctl_check", SIG_FAST, "genc_muggle_fast_flow_ctl_check"),
+    ([FFC], "muggle_fast_flow_ctl_update", SIG_FAST, "genc_muggle_fast_flow_ctl_update"),
+]
+
+
 def gen_params(ctx):
     """Second tie (DESIGN.md 4.4): the four leaf functions are re-translated from the C text
-    (clang JSON AST) into Gallina on every run; Properties_C19.v proves them equal to the model."""
+    (clang JSON AST) into Gallina on every run; Properties_C19.v proves them equal to the model.
+    The clock-reading entry points, get_curr_elapsed and the time counter go through lib/leafcalls.py
+    (calls inlined, clock reads taken from a list of readings, fixed signature, range-check lists)."""
     import os
     import leaftrans as L
+    import leafcalls as LC
     V.gen_config_header()
     flags = ["-std=gnu11", "-I" + V.REPO, "-I" + V.GEN_INC, "-DNDEBUG"]
-    out = ["(* generated by lib/props/c19.py + lib/leaftrans.py from the C text of the flow controllers on this run; do not edit *)",
-           "From MV Require Import Lib.Leaf.", "Local Open Scope Z_scope.", ""]
+    out = ["(* generated by lib/props/c19.py + lib/leaftrans.py + lib/leafcalls.py from the C text of the flow controllers and the time counter on this run; do not edit *)",
+           "From MV Require Import Lib.Leaf C19.GenLib.", "From Coq Require Import List.", "Local Open Scope Z_scope.", ""]
     for src, name in LEAVES:
         try:
             out.append(L.translate(os.path.join(V.REPO, src), name, flags)[0])
         except L.LeafError as e:
             out.append("(* translator error for %s: %s *)\n" % (name, e))
+    for srcs, name, sig, gname in CALLS:
+        try:
+            out.append(LC.translate_call([os.path.join(V.REPO, x) for x in srcs], name, flags, sig, gname=gname)[0])
+        except L.LeafError as e:
+            out.append("(* translator error for %s: %s *)\n" % (name, e))
     return "\n".join(out)
 
 
-def _mk(name, kind, t, n, fwd, freq, ops, valid=True):
-    head = "init %s %d %d %d" % (kind, t, n, fwd) + ((" %d" % freq) if kind == "fast" else "")
-    return V.Case(name, [head] + ["%s %d" % o for o in ops],
-                  {"kind": kind, "t": t, "n": n, "fwd": fwd, "freq": freq, "valid": valid})
+def _ipart(freq):
+    """(int64_t)tick_freq for the non-negative decimal text or number `freq`"""
+    return int(str(freq).split(".")[0] or "0")
+
+
+def _mk(name, kind, t, n, fwd, freq, ops, valid=True, base=None):
+    """ops: (op, now) or (op, now, step); base: ns -> (sec, nsec) of the clock at creation, fast -> tick base"""
+    head = "init %s %d %d %d" % (kind, t, n, fwd) + ((" %s" % freq) if kind == "fast" else "")
+    if base is not None:
+        head += (" %d %d" % base) if kind == "ns" else (" %d" % base)
+    return V.Case(name, [head] + [" ".join([o[0]] + ["%d" % x for x in o[1:]]) for o in ops],
+                  {"kind": kind, "t": t, "n": n, "fwd": fwd, "freq": _ipart(freq), "valid": valid})
+
+
+def _rand_base(rng, kind):
+    """clock value at creation: every nanosecond part (0, 1, 999999999: later readings borrow), small and large seconds"""
+    if kind == "ns":
+        return (rng.choice([0, 1, 7, 5000, 1700000000, 4000000000]),
+                rng.choice([0, 1, 999999999, 999999999, 500000000, rng.below(1000000000)]))
+    return rng.choice([0, 1, 777000000000, (1 << 62) + rng.below(1 << 20), rng.below(1 << 40)])
 
 
 def corpus_cases(ctx):
-    return [
+    import os
+    out = []
+    d = os.path.join(V.VERIF, "corpus", "C19")
+    if os.path.isdir(d):
+        for f in sorted(os.listdir(d)):
+            if f.endswith(".case"):
+                out.append(V.Case.load(os.path.join(d, f)))
+    return out + [
         _mk("corpus-boundary-gap-eq-t", "ns", 1, 1, 0, NS, [("cu", 0), ("cu", NS - 1), ("cu", NS), ("cu", 2 * NS - 1), ("cu", 2 * NS)]),
         _mk("corpus-force", "ns", 1, 2, 1, NS, [("cfu", 0), ("cfu", 1), ("cfu", 2), ("cfu", NS + 1), ("cfu", NS + 2), ("cfu", NS + 3)]),
         _mk("corpus-init-n0", "ns", 1, 0, 0, NS, [("cu", 1)]),
@@ -74,32 +144,282 @@ def generate(rng, tier):
                     for opk in ("cu", "cfu"):
                         if kind == "fast" and n > 2 and tier == "quick":
                             continue
+                        base = _rand_base(rng, kind)
                         for combo in itertools.product(range(len(gaps)), repeat=L):
+                            # the clock advances by `step` at every read inside a call (0: frozen, as in the first rounds)
+                            step = (0, T // 2, 1)[sum(combo) % 3]
                             now, ops = 0, []
                             for g in combo:
                                 now += gaps[g]
-                                ops.append((opk, now))
+                                ops.append((opk, now, step) if step else (opk, now))
                             cases.append(_mk("ex-%s-n%d-t%d-f%d-%s-%s" % (kind, n, t, fwd, opk, "".join(map(str, combo))),
-                                             kind, t, n, fwd, unit, ops))
+                                             kind, t, n, fwd, unit, ops, base=base))
     # random long mixed timelines
     nrand = 300 if tier == "quick" else 6000
     for i in range(nrand):
         kind = rng.choice(["ns", "fast"])
-        unit = NS if kind == "ns" else rng.choice([1, 2, 7, 1000, 2400000000])
+        unit = NS if kind == "ns" else rng.choice([1, 2, 7, 1000, 2400000000, "1000.5", "7.25", "2400000000.75", "2.999"])
         t = rng.choice([1, 1, 2, 3, 10])
         n = rng.choice([1, 2, 3, 4, 5, 8, 16, 33])
         fwd = rng.choice([0, 0, 1, t, t + 1, 100])
-        T = t * unit
+        T = t * _ipart(unit)
+        stepped = rng.chance(1, 2)
         now, ops = 0, []
         for _ in range(rng.range(1, 60 if tier == "quick" else 400)):
             g = rng.choice([0, 0, 1, T // 2, T - 1, T, T + 1, 2 * T, rng.below(T + 2), rng.below(max(1, T // max(1, n)) + 1)])
             now += g
-            ops.append((rng.choice(["cu", "cu", "cu", "cfu", "check", "update"]), now))
-        cases.append(_mk("rnd-%d" % i, kind, t, n, fwd, unit, ops))
+            op = rng.choice(["cu", "cu", "cu", "cfu", "check", "update"])
+            if stepped and op in ("cu", "cfu"):
+                st = rng.choice([0, 1, 1, T // 2, T - 1, T, rng.below(T + 2)])
+                ops.append((op, now, st))
+                now += st          # the next request comes after this call has returned
+            else:
+                ops.append((op, now))
+        cases.append(_mk("rnd-%d" % i, kind, t, n, fwd, unit, ops, base=_rand_base(rng, kind) if rng.chance(3, 4) else None))
+    # tick windows of several seconds on GHz tick sources (t * 10^9 * tick_freq is beyond 2^63 there: the tick window
+    # must be formed from seconds * tick_freq, never through the nanosecond window)
+    cases += _ghz_cases(rng, 24 if tier == "quick" else 400)
+    # big rings around the structural thresholds of the C text, lapped at least twice by uneven traffic
+    cases += _lapped_cases(rng, tier)
+    # magnitudes next to the stated bound |now|, t * unit, init_forward * unit < 2^62
+    cases += _bound_cases(rng, 40 if tier == "quick" else 600)
     # rejected / degenerate inits
     for i, (t, n) in enumerate([(0, 1), (-1, 3), (1, 0), (0, 0)]):
         cases.append(_mk("badinit-%d" % i, "ns" if i % 2 else "fast", t, n, 0, 5, [("cu", 1), ("check", 2)]))
     return cases
+
+
+# --------------------------------------------------------------------------
+# big rings, lapped, uneven traffic
+
+C_TEXT = ["muggle/c/time/flow_controller.c", "muggle/c/time/fast_flow_controller.c",
+          "muggle/c/time/flow_controller.h", "muggle/c/time/fast_flow_controller.h"]
+BASE_N = (1023, 1024, 1025, 3000)
+WIDTH_N = (257, 65537)      # a counter, cursor or high-water mark narrowed to 8 / 16 bits (search only)
+MAX_STRUCT_N = 70000
+
+
+def c_text_thresholds():
+    """Ring sizes at which the C text of the controllers may change its behaviour: every integer literal of
+    flow_controller.[ch] / fast_flow_controller.[ch] (comments removed; #define bodies included, so a named
+    threshold counts) with its two neighbours, 2^k (+-1) for every literal k used as a shift count, plus the
+    fixed 1023, 1024, 1025, 3000.  Deliberately a superset of 'literals compared with n or the cursor': a mask
+    (& 1023), a remainder (% 4096) or a chunk size is a threshold as well.  Never raises."""
+    import os
+    import re
+    vals = set()
+    for rel in C_TEXT:
+        try:
+            txt = open(os.path.join(V.REPO, rel), errors="replace").read()
+        except OSError:
+            continue
+        txt = re.sub(r"/\*.*?\*/", " ", txt, flags=re.S)
+        txt = re.sub(r"//[^\n]*", " ", txt)
+        txt = re.sub(r'"(?:[^"\\\n]|\\.)*"', ' ', txt)
+        for m in re.finditer(r"(?<![\w.])(0[xX][0-9a-fA-F]+|\d+)[uUlL]*(?![\w.])", txt):
+            try:
+                v = int(m.group(1), 0) if not re.fullmatch(r"0\d+", m.group(1)) else int(m.group(1), 8)
+            except ValueError:
+                continue
+            vals.add(v)
+            if 2 <= v <= 16 and re.search(r"(<<|>>)\s*\(?\s*$", txt[max(0, m.start() - 8):m.start()]):
+                vals.add(1 << v)
+    out = set(BASE_N)
+    for v in vals:
+        for d in (-1, 0, 1):
+            if 2 <= v + d <= MAX_STRUCT_N:
+                out.add(v + d)
+    return sorted(out)
+
+
+def _composition(rng, total, parts):
+    """`parts` non-negative sizes summing to `total`, deliberately uneven"""
+    cuts = sorted(rng.below(total + 1) for _ in range(parts - 1))
+    return [b - a for a, b in zip([0] + cuts, cuts + [total])]
+
+
+def _lapped_ops(rng, n, T, opk, ovl, windows, light=False):
+    """One irregular window exactly at the limit (n requests: about three quarters at individually drawn instants,
+    so that neighbouring slots hold different stamps, the rest in a few bursts), sustained bursty overload (ovl
+    times the permitted rate) over `windows` windows so that the ring is lapped at least twice, idle gaps of about
+    t each followed by a burst of n+1 at one instant and probes at t-1 and t after it, a second irregular window,
+    overload again, a long idle gap and a last burst.  light: only the irregular window, the overload, an idle gap
+    of about t and one burst (about (3 + ovl * windows) * n operations).  opk: cu | cfu | mix."""
+    ops = []
+
+    def emit(cnt, now):
+        if opk == "mix":
+            for _ in range(cnt):
+                ops.append((rng.choice(["cu", "cu", "cu", "cfu", "check", "update"]), now))
+        else:
+            ops.extend([(opk, now)] * cnt)
+
+    def irregular(start):
+        k = rng.range(2, 6)
+        nb = n // 4
+        inst = [start + rng.below(T) for _ in range(n - nb)]
+        for sz in _composition(rng, nb, k):
+            inst += [start + rng.below(T)] * sz
+        inst.sort()
+        for at in inst:
+            emit(1, at)
+        last = max(inst[-1], start + T - 1)
+        emit(2, last)
+        return last
+
+    def overload(start, nwin2):
+        """nwin2 half-windows of overload"""
+        total = max(1, ovl * n * nwin2 // 2)
+        span = max(1, nwin2 * T // 2)
+        j = 0
+        while j < total:
+            b = min(total - j, rng.range(1, 2 * ovl + 1) if rng.chance(7, 8) else rng.range(1, 6 * ovl))
+            emit(b, start + (j * span) // total)
+            j += b
+        return start + span
+
+    now = irregular(0)
+    now = overload(now, 2 * windows)
+    if light:
+        now += rng.choice([T - 1, T, T + 1])
+        emit(n + 1, now)
+        emit(2, now + T - 1)
+        emit(2, now + T)
+        return ops
+    for g in rng.shuffle([T + 1, T - 1, T]):
+        now += g
+        emit(n + 1, now)
+        now += T - 1
+        emit(2, now)
+        now += 1
+        emit(2, now)
+    now = irregular(now + T + rng.below(T + 1))
+    now = overload(now, 3)
+    now += 2 * T
+    emit(n + 1, now)
+    return ops
+
+
+LAP_VARIANTS = [("ns", "cu"), ("ns", "cfu"), ("fast", "cu"), ("fast", "cfu"), ("ns", "mix"), ("fast", "mix")]
+
+
+def _lapped_case(rng, tag, n, kind, opk, ovl, windows, light=False):
+    unit = NS if kind == "ns" else rng.choice([1000, 1000, 7, 2400000000, 3000000000])
+    t = rng.choice([1, 1, 2, 3]) if unit < NS else rng.choice([1, 1, 2, 3, 10])
+    fwd = rng.choice([t, t, t + 1, 100, 0])
+    ops = _lapped_ops(rng, n, t * unit, opk, ovl, windows, light)
+    return _mk("lap-%s-%s-n%d-%s" % (tag, kind, n, opk), kind, t, n, fwd, unit, ops)
+
+
+def _lapped_cases(rng, tier, for_search=False):
+    """the model driver walks a list per operation (cost ~ n per op), so the generated tiers keep n <= 4100 and
+    the quick tier a light load; search() runs the implementation and the monitor only and takes every threshold"""
+    out = []
+    ths = c_text_thresholds()
+    if for_search:
+        for n in sorted(set(ths) | set(WIDTH_N)):
+            big = n > 8192
+            for vi, (kind, opk) in enumerate(LAP_VARIANTS):
+                if big and (opk == "mix" or (vi + n) % 2):
+                    continue
+                out.append(_lapped_case(rng, "s", n, kind, opk, 2 if big else 6, 2 if big else 3))
+        return out
+    if tier == "quick":
+        for n in [x for x in ths if x <= 1100]:
+            for kind, opk in LAP_VARIANTS:
+                out.append(_lapped_case(rng, "q", n, kind, opk, 4, 2))
+        for n in [x for x in ths if 1100 < x <= 4100][:7]:
+            for kind, opk in LAP_VARIANTS[:4]:
+                out.append(_lapped_case(rng, "q", n, kind, opk, 2, 2, light=True))
+    else:
+        for n in [x for x in ths if x <= 4100]:
+            for kind, opk in LAP_VARIANTS:
+                for r in range(2 if n <= 2048 else 1):
+                    out.append(_lapped_case(rng, "t%d" % r, n, kind, opk, 6, 3))
+    return out
+
+
+B62 = 1 << 62
+
+
+def _bound_cases(rng, count):
+    """time_range_sec and init_forward_sec up to 2^31 - 1 and up to the largest value with t * unit < 2^62, request
+    times up to 2^62 - 1: the largest intermediates of the code (t * 10^9, -init_forward * 10^9, now - arr[cursor],
+    (end.tv_sec - start.tv_sec) * 10^9) are then just below 2^63"""
+    out = []
+    for i in range(count):
+        kind = rng.choice(["ns", "fast"])
+        unit = NS if kind == "ns" else rng.choice([1, 1000, 3000000000, "2400000000.75"])
+        u = _ipart(unit)
+        tmax = (B62 - 1) // max(u, NS)       # the tick controller stores the nanosecond window t * 10^9 as well
+        t = rng.choice([min(tmax, (1 << 31) - 1), tmax, max(1, tmax - 1), min(tmax, 1 << 31), min(tmax, (1 << 32) + 5)])
+        fwd = rng.choice([0, t, min(tmax, (1 << 31) - 1), tmax, 1])
+        n = rng.choice([1, 2, 3])
+        T = t * u
+        now, ops = rng.choice([0, 0, B62 - 1 - T if T < B62 else 0]), []
+        for _ in range(rng.range(3, 14)):
+            g = rng.choice([0, 1, T // 2, T - 1, T, T + 1, B62 - 1 - now])
+            if now + g >= B62:
+                g = B62 - 1 - now
+            now += g
+            op = rng.choice(["cu", "cu", "cfu", "check", "update"])
+            if op in ("cu", "cfu") and rng.chance(1, 3) and now + 2 < B62:
+                ops.append((op, now, 1))
+                now += 1
+            else:
+                ops.append((op, now))
+        base = (rng.choice([0, 5000]), rng.choice([0, 999999999])) if kind == "ns" else rng.choice([0, 777000000000])
+        out.append(_mk("bound-%d" % i, kind, t, n, fwd, unit, ops, base=base))
+    return out
+
+
+def _wide_ring_cases():
+    """n just beyond 2^16 with the first lap made visible: with init_forward = 0 every request of the first lap must
+    be refused (the virtual initial requests are at the creation instant), with init_forward = t every one must be
+    admitted; forced update moves the cursor over every slot.  Implementation + monitor only (the extracted model
+    needs about n steps per operation)."""
+    out = []
+    n = 65536 + 3
+    for kind, unit in (("ns", NS), ("fast", 1000)):
+        out.append(_mk("wide-%s-fwd0" % kind, kind, 1, n, 0, unit, [("cfu", 5)] * (n + 2) + [("cfu", unit + 5)] * 3))
+        out.append(_mk("wide-%s-fwd1" % kind, kind, 1, n, 1, unit, [("cfu", 0)] * (n + 2) + [("cu", unit - 1), ("cu", unit)]))
+    return out
+
+
+def extra_violations(ctx, stats):
+    """cases that are too long for the extracted model: implementation + independent monitor only"""
+    import os
+    out = []
+    cases = _wide_ring_cases()
+    ri = ctx.run_impl(cases)
+    for c in cases:
+        a = ri.get(c.name, {"lines": [], "status": "crash", "detail": "no output"})
+        stats["evaluations"] += 1
+        tally(stats["dist"], c, a["lines"])
+        msg = ("implementation %s: %s" % (a["status"], a["detail"])) if a["status"] != "ok" else monitor(c, a["lines"])
+        if msg:
+            small = ctx.shrink(c, lambda cc: bool(ctx.monitor_fails(cc)))
+            path = small.save(os.path.join(ctx.replay_dir, "%s.case" % small.name),
+                              header=["property=%s seed=%d tier=%s" % (ID, ctx.seed, ctx.tier), "monitor: %s" % msg])
+            out.append((path, msg))
+            break
+    return out
+
+
+def _ghz_cases(rng, count):
+    out = []
+    for i in range(count):
+        freq = rng.choice([2000000000, 2400000000, 3000000000, 3500000000])
+        t = rng.choice([4, 5, 10, 60])
+        n = rng.choice([1, 2, 3, 5, 100])
+        fwd = rng.choice([0, t, 60, 3600])
+        T = t * freq
+        now, ops = 0, []
+        for _ in range(rng.range(4, 60)):
+            now += rng.choice([0, 1, T // 2, T - 1, T, T + 1, rng.below(T + 2), rng.below(max(1, T // n) + 1)])
+            ops.append((rng.choice(["cu", "cu", "cu", "cfu", "check", "update"]), now))
+        out.append(_mk("ghz-%d" % i, "fast", t, n, fwd, freq, ops))
+    return out
 
 
 search_budget = 4000
@@ -119,17 +439,30 @@ def _big_n_cases():
 
 def search(rng, diverging, tier):
     """Extra cases aimed at the window boundary, used when a proof or the correspondence broke."""
-    out = _big_n_cases()
+    out = []
     for i in range(search_budget):
         kind = rng.choice(["ns", "fast"])
         unit = NS if kind == "ns" else rng.choice([1, 3, 1000])
         t, n, fwd = rng.choice([1, 2]), rng.choice([1, 2, 3, 4]), rng.choice([0, 1, 2])
         T = t * unit
         now, ops = 0, []
+        stepped = rng.chance(1, 2)
         for _ in range(rng.range(2, 14)):
             now += rng.choice([0, 1, T // 2, T - 1, T, T + 1])
-            ops.append((rng.choice(["cu", "cu", "cfu", "check", "update"]), now))
-        out.append(_mk("search-%d" % i, kind, t, n, fwd, unit, ops))
+            op = rng.choice(["cu", "cu", "cfu", "check", "update"])
+            if stepped and op in ("cu", "cfu"):
+                st = rng.choice([1, T // 2, T - 1, T])
+                ops.append((op, now, st))
+                now += st
+            else:
+                ops.append((op, now))
+        out.append(_mk("search-%d" % i, kind, t, n, fwd, unit, ops, base=_rand_base(rng, kind) if rng.chance(1, 2) else None))
+    # short cases first (the first failing case in this order is minimised and becomes the replay), then the
+    # wide-counter family, then big rings around every threshold of the C text, smallest ring first
+    out += _ghz_cases(rng, 200)
+    out += _bound_cases(rng, 300)
+    out += _big_n_cases()
+    out += _lapped_cases(rng, tier, for_search=True)
     return out
 
 
@@ -145,19 +478,20 @@ def monitor(case, lines):
         return "init returned %r, expected %s" % (lines[0], "ok" if ok_expected else "fail")
     if not ok_expected:
         return None
-    unit = NS if m["kind"] == "ns" else m["freq"]
+    unit = NS if m["kind"] == "ns" else _ipart(m["freq"])
     T = m["t"] * unit
     import bisect
     H = [-m["fwd"] * unit] * m["n"]      # recorded request times, kept sorted (the timeline is non-decreasing)
     last = -m["fwd"] * unit
     for k, ln in enumerate(case.lines[1:], 1):
-        op, a = ln.split()
-        a = int(a)
+        w = ln.split()
+        op, a = w[0], int(w[1])       # a third word is the clock's advance per read during the call: the request time is the first reading
         if a < last or (k == 1 and a < H[0]):
             return None   # not a non-decreasing timeline: outside the property
         last = a
-        room = len(H) - bisect.bisect_right(H, a - T) < m["n"]
-        got = lines[k] if k < len(lines) else None
+        inwin = len(H) - bisect.bisect_right(H, a - T)      # recorded requests (virtual initial ones included) in (a - T, a]
+        room = inwin < m["n"]
+        got = (lines[k].split() or [""])[0] if k < len(lines) else None     # a second word is the clock after the call
         if op == "update":
             H.append(a)
             exp = "-"
@@ -171,17 +505,23 @@ def monitor(case, lines):
             exp = "1" if room else "0"
             H.append(a)
         if got != exp:
-            return "op %d (%s): implementation answered %r, window specification says %r (n=%d, t=%d, %d recorded in window)" % (
-                k, ln, got, exp, m["n"], T, len(H) - bisect.bisect_right(H, a - T))
+            return "op %d (%s): implementation answered %r, window specification says %r (n=%d, t=%d, %d recorded in window before this request)" % (
+                k, ln, got, exp, m["n"], T, inwin)
     return None
 
 
 def _meta_from_lines(case):
     w = case.lines[0].split()
-    return {"kind": w[1], "t": int(w[2]), "n": int(w[3]), "fwd": int(w[4]), "freq": int(w[5]) if len(w) > 5 else NS}
+    return {"kind": w[1], "t": int(w[2]), "n": int(w[3]), "fwd": int(w[4]),
+            "freq": _ipart(w[5]) if (w[1] == "fast" and len(w) > 5) else (1 if w[1] == "fast" else NS)}
+
+
+def _verdicts(lines):
+    return [(x.split() or [""])[0] for x in lines]
 
 
 def nontrivial_key(case, lines):
+    lines = _verdicts(lines)
     if "1" in lines and "0" in lines:
         return "\n".join(case.lines)
     return None
@@ -193,6 +533,10 @@ def tally(dist, case, lines):
         key = "%s=%s" % (k, m.get(k))
         dist[key] = dist.get(key, 0) + 1
     dist["ops"] = dist.get("ops", 0) + len(case.lines) - 1
+    dist["ops_with_advancing_clock"] = dist.get("ops_with_advancing_clock", 0) + sum(1 for x in case.lines[1:] if len(x.split()) > 2)
+    if lines and len(case.lines[0].split()) > (6 if m.get("kind") == "fast" else 5):
+        dist["explicit_clock_base"] = dist.get("explicit_clock_base", 0) + 1
+    lines = _verdicts(lines[:1]) and [lines[0]] + _verdicts(lines[1:]) if lines else lines
     dist["admitted"] = dist.get("admitted", 0) + lines.count("1")
     dist["refused"] = dist.get("refused", 0) + lines.count("0")
     if lines and lines[0] == "init fail":
@@ -203,11 +547,14 @@ MANIFEST = {
     "level_text": ("Unbounded Coq theorems over an executable model of the circular-array controller: for every n, t, "
                    "init_forward and every non-decreasing timeline the verdict equals the sliding-window specification "
                    "(both directions), no interval of length t holds more than n admitted, forced update records all, "
-                   "tick controller agrees under scaling.  Model tied to the C code by a differential run of the extracted "
+                   "tick controller agrees under scaling, every slot holds its last stamp after any number of laps, every "
+                   "clock-reading call reads the clock once and equals the explicit-timestamp operation, the time counter's "
+                   "interval is the difference of the readings for every nanosecond part, stamps stay below 2^62 and the "
+                   "generated C functions have no signed overflow under that bound.  Model tied to the C code by a differential run of the extracted "
                    "model against flow_controller.c / fast_flow_controller.c compiled from the working tree, plus an "
                    "independent window-count monitor."),
     "design_ref": "DESIGN.md section 6 / C19, Appendix A.1",
     "level_note": ("Trusted: Coq kernel, extraction (ExtrOcamlBasic), the differential harness; clock is a scenario clock "
                    "(clock_gettime wrapped, rdtscp supplied); int64 overflow excluded by the magnitude bound."),
-    "technique": "Coq proof of refinement to a sliding-window spec (induction over op lists) + extracted-model differential run",
+    "technique": "Coq proof of refinement to a sliding-window spec (induction over op lists), per-slot ring theorem, call-level model with an advancing clock, C-text ties by two AST translators with range-check obligations + extracted-model differential run",
 }
